@@ -13,15 +13,41 @@ DevSnapNever == {"BootstrapUnderSnapshot", "BootcheckNeverHits"}
 
 \* drv: the creating context is still open when the workers start (only without a backup
 \* file: a context that is open on the database would itself have restored the backup)
-ScnPlain == [bak : BOOLEAN, boot : BOOLEAN, cursor : BOOLEAN, drv : {FALSE}]
-ScnDrv == [bak : {FALSE}, boot : BOOLEAN, cursor : BOOLEAN, drv : {TRUE}]
-ScnAll == ScnPlain \cup ScnDrv
-ScnNoCursor == [bak : BOOLEAN, boot : BOOLEAN, cursor : {FALSE}, drv : {FALSE}]
-ScnBak == [bak : {TRUE}, boot : {TRUE}, cursor : {FALSE}, drv : {FALSE}]
-ScnCursor == [bak : {FALSE}, boot : BOOLEAN, cursor : {TRUE}, drv : {FALSE}]
-ScnSafe == [bak : {FALSE}, boot : BOOLEAN, cursor : {FALSE}, drv : BOOLEAN]
+\* prov/rdr: see Workers (provenance of the files / which workers keep the cursor); the families
+\* below this block keep the files "built" and the cursor on every worker
+Old(S) == {[bak |-> s.bak, boot |-> s.boot, cursor |-> s.cursor, drv |-> s.drv, prov |-> "built", rdr |-> 0] : s \in S}
+ScnPlain == Old([bak : BOOLEAN, boot : BOOLEAN, cursor : BOOLEAN, drv : {FALSE}])
+ScnDrv == Old([bak : {FALSE}, boot : BOOLEAN, cursor : BOOLEAN, drv : {TRUE}])
+ScnNoCursor == Old([bak : BOOLEAN, boot : BOOLEAN, cursor : {FALSE}, drv : {FALSE}])
+ScnBak == Old([bak : {TRUE}, boot : {TRUE}, cursor : {FALSE}, drv : {FALSE}])
+ScnCursor == Old([bak : {FALSE}, boot : BOOLEAN, cursor : {TRUE}, drv : {FALSE}])
 \* lifetimes: contexts close and open at any moment, with and without the creating context
-ScnLife == [bak : {FALSE}, boot : BOOLEAN, cursor : BOOLEAN, drv : BOOLEAN]
-ScnLifeNoCursor == [bak : {FALSE}, boot : BOOLEAN, cursor : {FALSE}, drv : BOOLEAN]
+ScnLife == Old([bak : {FALSE}, boot : BOOLEAN, cursor : BOOLEAN, drv : BOOLEAN])
+ScnLifeNoCursor == Old([bak : {FALSE}, boot : BOOLEAN, cursor : {FALSE}, drv : BOOLEAN])
+\* readers and writers on databases of every provenance: a backup written by backup_db() of an earlier
+\* context (re-run), files in rollback-journal mode, and - on all of them and on the built files - a
+\* single long-lived reader (worker 1 or worker 2) beside workers without cursor
+ProvOk(s) == (s.prov = "lib" => s.bak) /\ ~(s.prov = "built" /\ s.rdr = 0)
+ScnRW == {s \in [bak : BOOLEAN, boot : BOOLEAN, cursor : {TRUE}, drv : {FALSE}, prov : {"built", "lib", "rbj"}, rdr : {0, 1, 2}] : ProvOk(s)}
+\* quick tier: every reader pattern on the restored backup, one rollback-journal and one built file per single reader
+ScnRWq == {s \in ScnRW : ~s.boot /\ (s.prov = "lib" \/ (s.prov = "rbj" /\ (s.bak <=> s.rdr = 2) /\ s.rdr # 0)
+                                               \/ (s.prov = "built" /\ (s.bak <=> s.rdr = 1)))}
+\* start-up on such files (who establishes WAL, in every interleaving of two start-ups)
+ScnProvStart == {s \in [bak : BOOLEAN, boot : {FALSE}, cursor : {FALSE}, drv : {FALSE}, prov : {"lib", "rbj"}, rdr : {0}] : ProvOk(s)}
+ScnProv == ScnRW \cup ScnProvStart
+ScnProvQ == ScnRWq \cup ScnProvStart
+ScnAll == ScnPlain \cup ScnDrv
+ScnAllP == ScnAll \cup ScnProv
+\* 3 workers, quick tier: one representative of every provenance / reader pattern
+ScnAllQ == ScnAll \cup {s \in ScnProv : ~s.boot /\ s.rdr # 2 /\ (s.bak <=> s.prov = "lib")}
+ScnSafe == Old([bak : {FALSE}, boot : BOOLEAN, cursor : {FALSE}, drv : BOOLEAN])
+           \cup {s \in ScnProvStart : ~s.bak}
+\* the seeded class: the journal mode is lost on the way through backup and restore
+ScnRestored == {s \in ScnRW : s.prov = "lib" /\ ~s.boot /\ s.rdr = 1}
+ScnLibOnly == {s \in ScnProv : s.prov # "rbj"}
+ScnRbjReader == {s \in ScnRW : s.prov = "rbj" /\ ~s.bak /\ ~s.boot /\ s.rdr = 2}
+DevRollback == {"BootcheckNeverHits", "BackupDropsJournalMode", "ModeSetByCreatorOnly"}
+DevDrops == {"BootcheckNeverHits", "BackupDropsJournalMode"}
+DevCreatorOnly == {"BootcheckNeverHits", "ModeSetByCreatorOnly"}
 DevTidy == {"BootcheckNeverHits", "CloseRemovesSideFiles"}
 =============================================================================
